@@ -1683,7 +1683,11 @@ class TeX(object):
             # integer constant
             elif t in string.digits:
                 num = number(sign * int(t + self.readSequence(string.digits,
-                                                              optspace=optspace)))
+                                                              optspace=False)))
+                # A space ends the constant: what follows it is not
+                # looked at (looking would expand, that is execute, it)
+                if optspace and self.readOneOptionalSpace() is not None:
+                    break
                 for t in self:
                     if t.nodeType == Macro.ELEMENT_NODE and \
                        isinstance(t, ParameterCommand):
